@@ -120,35 +120,10 @@ func runC07(c *Ctx) {
 
 	// R2 wait-for graph
 	const r2 = "C07.R2 wait-for graph of goroutine roles is acyclic"
-	cf := computeConfinement(c)
-	roles := map[string]map[*ssa.Function]bool{}
-	for _, o := range cf.owners {
-		set := map[*ssa.Function]bool{}
-		for fn, oo := range cf.conf {
-			if oo == o {
-				set[fn] = true
-			}
-		}
-		roles[o+"-run"] = set
-	}
+	cf, roles, mp := computeRoles(c, r2)
+	him := c.P.Func(rlm + "handleInboundMessages")
+	_ = him
 	root := func(name string) *ssa.Function { return c.Fn(r2, name) }
-	him := root(rlm + "handleInboundMessages")
-	roles["meta-handler"] = ir.SyncReachable(him)
-	roles["session-handler"] = ir.SyncReachable(root(rlm + "handleSession$1"))
-	mp := []*ssa.Function{root(rlm + "metaProcedureHandler")}
-	for _, u := range c.FuncValueUses(`\$bound$`) {
-		if ir.ShortName(u.Caller) == rlm+"setupMetaProcedures" {
-			for _, fn := range c.P.FuncsIn("router") {
-				if fn.String()+"$bound" == u.Callee {
-					mp = append(mp, fn)
-				}
-			}
-		}
-	}
-	roles["meta-proc"] = ir.SyncReachable(mp...)
-	roles["attach"] = ir.SyncReachable(root("router.(*router).AttachClient"))
-	roles["call-timer"] = ir.SyncReachable(root(dlr + "syncCall$1"))
-	roles["api"] = ir.SyncReachable(root("router.(*router).Close"), root("router.(*router).RemoveRealm"), root("router.(*router).AddRealm"), root("router.NewRouter"))
 	c.R.Check(len(mp) >= 20, r2, rlm+"setupMetaProcedures", "registered meta procedure handlers found", "-", fmt.Sprintf("found %d handler functions", len(mp)-1))
 
 	var edges []wfEdge
@@ -338,4 +313,40 @@ func sortedKeysF[V any](m map[string]V) []string {
 	}
 	sort.Strings(ks)
 	return ks
+}
+
+// computeRoles: the goroutine roles of the router and the functions that may
+// run in each (owner loops by confinement, the others by synchronous
+// reachability from their roots).
+func computeRoles(c *Ctx, r2 string) (*confinement, map[string]map[*ssa.Function]bool, []*ssa.Function) {
+	cf := computeConfinement(c)
+	roles := map[string]map[*ssa.Function]bool{}
+	for _, o := range cf.owners {
+		set := map[*ssa.Function]bool{}
+		for fn, oo := range cf.conf {
+			if oo == o {
+				set[fn] = true
+			}
+		}
+		roles[o+"-run"] = set
+	}
+	root := func(name string) *ssa.Function { return c.Fn(r2, name) }
+	him := root(rlm + "handleInboundMessages")
+	roles["meta-handler"] = ir.SyncReachable(him)
+	roles["session-handler"] = ir.SyncReachable(root(rlm + "handleSession$1"))
+	mp := []*ssa.Function{root(rlm + "metaProcedureHandler")}
+	for _, u := range c.FuncValueUses(`\$bound$`) {
+		if ir.ShortName(u.Caller) == rlm+"setupMetaProcedures" {
+			for _, fn := range c.P.FuncsIn("router") {
+				if fn.String()+"$bound" == u.Callee {
+					mp = append(mp, fn)
+				}
+			}
+		}
+	}
+	roles["meta-proc"] = ir.SyncReachable(mp...)
+	roles["attach"] = ir.SyncReachable(root("router.(*router).AttachClient"))
+	roles["call-timer"] = ir.SyncReachable(root(dlr + "syncCall$1"))
+	roles["api"] = ir.SyncReachable(root("router.(*router).Close"), root("router.(*router).RemoveRealm"), root("router.(*router).AddRealm"), root("router.NewRouter"))
+	return cf, roles, mp
 }
